@@ -6,9 +6,10 @@ cd $d || exit 2
 t=$(/venv/bin/python -m pytest -q -p no:cacheprovider --timeout=900 -q 2>&1 | tail -1)
 PYTHONPATH=$d /venv/bin/python demo_$p.py >/tmp/$id.with.log 2>&1; with=$?
 git diff -- pymemcache > /tmp/$id.patch
-git stash -q -- pymemcache
+# (no `git stash`: the stash is shared by every worktree of the repository)
+git apply -R /tmp/$id.patch
 PYTHONPATH=$d /venv/bin/python demo_$p.py >/tmp/$id.without.log 2>&1; without=$?
-git stash pop -q
+git apply /tmp/$id.patch
 echo "$id tests: $t | demo with change: exit $with | without: exit $without"
 case "$t" in *" passed"*) ;; *) echo "NOT CONFIRMED: tests"; exit 1;; esac
 [ $with -ne 0 ] && [ $without -eq 0 ] || { echo "NOT CONFIRMED: demo"; exit 1; }
@@ -17,4 +18,4 @@ cp /tmp/$id.patch /verif/seeded/$id/patch.diff
 cp $d/demo_$p.py /verif/seeded/$id/
 git -C /repo apply --check /verif/seeded/$id/patch.diff || { echo "patch does not apply to /repo"; exit 1; }
 (cd /verif && VERIF_REPO=$d ./check $p 2>&1 | tail -4) | tee /tmp/$id.check.log
-python3 /verif/tools/py2coq/gen.py /repo /verif/coq/Gen Murmur3 KeyCheck Rendezvous CallSites Handlers Wrappers PoolLocks >/dev/null
+python3 /verif/tools/py2coq/gen.py /repo /verif/coq/Gen Murmur3 KeyCheck Rendezvous CallSites Handlers Wrappers PoolLocks Subscripts >/dev/null
